@@ -12,6 +12,7 @@ import (
 	"io"
 	"os"
 	"runtime"
+	"runtime/debug"
 	"strconv"
 	"strings"
 	"syscall"
@@ -273,6 +274,9 @@ func execOne(dec string, in []byte) (class string, code int, alloc uint64, diges
 		if x := recover(); x != nil {
 			runtime.ReadMemStats(&b)
 			class, code, alloc, digest, msg = "panic", 0, b.TotalAlloc-a.TotalAlloc, nil, fmt.Sprint(x)
+			if os.Getenv("VERIF_C04_STACK") != "" {
+				fmt.Fprintf(os.Stderr, "%s\n", debug.Stack())
+			}
 		}
 	}()
 	d, ex, err := decode(dec, in)
